@@ -2,15 +2,182 @@
 
 package xsync
 
-type vxSched struct {
-	deadlocked bool
+import "fmt"
+
+// Native cooperative scheduler used when a solver model is replayed: the
+// threads of VxPar run one at a time; thread t executes sched[r][t] visible
+// operations (atomics, mutex/cond operations, Gosched) in round r, exactly the
+// windows the symbolic encoding quantifies over. Plain code between two
+// visible operations runs together with the following visible operation.
+
+type vxThread struct {
+	id      int
+	wake    chan int // receives a budget
+	budget  int
+	done    bool
+	blocked bool
+	ops     int
 }
 
-// VxPar runs fs as threads. (native cooperative scheduler: TODO)
-func VxPar(fs ...func()) {
-	for _, f := range fs {
-		f()
+type vxSched struct {
+	threads    []*vxThread
+	back       chan struct{}
+	deadlocked bool
+	diverged   bool // a thread blocked although the model said it could run
+	free       bool // no scheduling at all (race replays)
+}
+
+func (s *vxSched) cur() *vxThread {
+	if s == nil || VxRT == nil || VxRT.cur < 0 {
+		return nil
+	}
+	return s.threads[VxRT.cur]
+}
+
+// vxEnter is called by every visible-operation shim before the operation.
+func vxEnter() {
+	if VxRT == nil || VxRT.sch == nil || VxRT.sch.free {
+		return
+	}
+	th := VxRT.sch.cur()
+	if th == nil {
+		return
+	}
+	for th.budget == 0 {
+		VxRT.sch.back <- struct{}{}
+		th.budget = <-th.wake
 	}
 }
 
-func VxYield() {}
+// vxExit is called after the operation: the window may end right here.
+func vxExit() {
+	if VxRT == nil || VxRT.sch == nil || VxRT.sch.free {
+		return
+	}
+	th := VxRT.sch.cur()
+	if th == nil {
+		return
+	}
+	th.ops++
+	th.budget--
+	if th.budget == 0 {
+		VxRT.sch.back <- struct{}{}
+		th.budget = <-th.wake
+	}
+}
+
+// vxBlock parks the current thread until cond() holds (a disabled blocking operation).
+func vxBlock(cond func() bool) {
+	if VxRT == nil || VxRT.sch == nil || VxRT.sch.free {
+		return
+	}
+	th := VxRT.sch.cur()
+	if th == nil {
+		if !cond() {
+			panic("vx: blocking operation outside VxPar would block forever")
+		}
+		return
+	}
+	for !cond() {
+		th.blocked = true
+		VxRT.sch.back <- struct{}{}
+		b := <-th.wake
+		th.blocked = false
+		if b > th.budget {
+			th.budget = b
+		}
+	}
+}
+
+// VxPar runs fs as threads under the replay schedule.
+func VxPar(fs ...func()) {
+	r := VxRT
+	if r == nil {
+		for _, f := range fs {
+			f()
+		}
+		return
+	}
+	s := &vxSched{back: make(chan struct{})}
+	r.sch = s
+	if r.VisAll || len(r.Sched) == 0 {
+		// race replays: genuinely parallel goroutines, no cooperative hand-over
+		// (a hand-over would order all accesses and hide the race)
+		s.free = true
+		done := make(chan struct{})
+		for i, f := range fs {
+			go func(i int, f func()) {
+				defer func() { done <- struct{}{} }()
+				f()
+			}(i, f)
+		}
+		for range fs {
+			<-done
+		}
+		return
+	}
+	for i := range fs {
+		th := &vxThread{id: i, wake: make(chan int)}
+		s.threads = append(s.threads, th)
+	}
+	for i, f := range fs {
+		go func(th *vxThread, f func()) {
+			th.budget = <-th.wake
+			defer func() {
+				if e := recover(); e != nil {
+					r.mu.Lock()
+					r.Failures = append(r.Failures, "panic in thread: "+fmt.Sprint(e))
+					r.mu.Unlock()
+				}
+				th.done = true
+				s.back <- struct{}{}
+			}()
+			f()
+		}(s.threads[i], f)
+	}
+	grant := func(th *vxThread, n int) {
+		r.cur = th.id
+		th.wake <- n
+		<-s.back
+		r.cur = -1
+	}
+	for _, row := range r.Sched {
+		for t, th := range s.threads {
+			if th.done || t >= len(row) || row[t] == 0 {
+				continue
+			}
+			grant(th, row[t])
+			if th.blocked {
+				s.diverged = true
+			}
+		}
+	}
+	// drain: the model says every thread has finished by now; run what is left
+	for progress := true; progress; {
+		progress = false
+		for _, th := range s.threads {
+			if th.done {
+				continue
+			}
+			before := th.ops
+			grant(th, 1<<30)
+			if th.done || th.ops > before {
+				progress = true
+			}
+		}
+	}
+	for _, th := range s.threads {
+		if !th.done {
+			s.deadlocked = true
+		}
+	}
+	r.sch = s
+}
+
+func VxYield() {
+	vxEnter()
+	vxExit()
+}
+
+func VxYieldEnter() { vxEnter() }
+func VxYieldExit()  { vxExit() }
